@@ -1,7 +1,226 @@
 import IbModel.Util.Wire
-/-! Driver handlers for C11 (request kinds served for that property). -/
-namespace IB.D11
+import IbModel.Util.Sha256
+import IbModel.Model.CheckpointRun
+import IbModel.Driver.PipeParse
+import IbModel.Driver.D01
+import IbModel.Driver.D12
+import IbModel.Generated.Tables
+/-!
+Driver handler for C11 (checkpointing engines).
 
-def handlers : List (String × (List String → String)) := []
+`CKPT pol=<barrier|every:n|time:s|hybrid:<T|F>:s> max=<none|n> rec=<T|F> first=<none|full|crash:j>
+      mut=<none|trunc:o|flip:i:b|set:hex> add=<names|-> pre=<dir|-> mode=<seq|par:n> canon=<..> src <rows> ; steps`
+
+* `pre`  : the directory before anything runs: comma-separated `<name>:<hex content>`; a name is either hex bytes or
+           `own.<stamp>` = `checkpoint_<this run's pipeline id>_<stamp>.bin`;
+* `first`: an earlier run of the SAME pipeline: `full` = runs to its end, `crash:j` = step `j` of the program (a
+           `map ident`) is armed and panics, i.e. the process is killed while the chain node that contains this op
+           executes; `none` = no earlier run;
+* `mut`  : what then happens to the newest own checkpoint file (`trunc:o` keep the first `o` bytes, `flip:i:b` flip
+           bit `b` of byte `i`, `set:hex` overwrite); `add`: foreign file names (hex) created afterwards;
+* then the run proper (`rec` = `auto_recover`).
+
+Answer: `[<first outcome> own=<0|+> last=<fields|-> || ]<outcome> rec=<log> own=<0|+> last=<fields|-> other=<names|->`
+(`own`: are there well-formed checkpoint files of this pipeline id; `last`: the record in the newest one, without
+timestamp and checksum; `other`: all remaining names, sorted). `rec` is `*` after `flip` mutations (the flipped byte
+may be a timestamp/checksum byte, which differs between the scripted and the wall clock).
+
+The clock is scripted: one millisecond per reading, the final run one hour after the first.
+-/
+namespace IB.D11
+open IB IB.Wire IB.Checkpoint IB.CheckpointRun IB.PipeParse
+
+def H : Bytes → Bytes := IB.Sha256.sha256Hex
+
+/-- `((idx as f64 / total as f64) * 100.0) as u8` with IEEE doubles (saturating cast, as Rust's `as`) -/
+def progressF (idx total : Nat) : UInt8 := (Float.ofNat idx / Float.ofNat total * 100.0).toUInt8
+
+def baseNs : Nat := 1700000000000 * 1000000
+
+def envAt (startNs : Nat) : Env :=
+  { H := H, dec := D12.cfgNow, clock := fun k => startNs + k * 1000000, progress := progressF }
+
+def env1 : Env := envAt baseNs
+def env2 : Env := envAt (baseNs + 3600 * 1000000000)
+
+/-! the chain, with the crash marker labelled so that it can be found after planning -/
+
+def crashOp : DynOp Part := { mapOp Fn.ident.eval with label := "crash" }
+
+def chainOf (src : List Val) (steps : List Step) (marker : Option Nat) : List (Node Part) :=
+  match marker with
+  | none => optimise (litChain src steps)
+  | some j => optimise (applySteps (applySteps [vecSource src] (steps.take j) ++ [st crashOp]) (steps.drop (j + 1)))
+
+partial def holdsCrash : Node Part → Bool
+  | .stateless ops => ops.any (fun o => o.label == "crash")
+  | .coGroup l r _ _ _ => l.any holdsCrash || r.any holdsCrash
+  | _ => false
+
+def crashIndex (chain : List (Node Part)) : Option Nat :=
+  let idxs := (List.range chain.length).filter (fun i => match chain[i]? with | some n => holdsCrash n | none => false)
+  idxs.head?
+
+/-! parsing -/
+
+def first? (s : String) : Option (Option (Option Nat)) :=   -- none = no first run; some none = full; some (some j) = crash
+  if s == "none" then some none
+  else if s == "full" then some (some none)
+  else match s.splitOn ":" with
+    | ["crash", j] => (parseNat? j).map (fun j => some (some j))
+    | _ => none
+
+inductive Mut | none | trunc (o : Nat) | flip (i b : Nat) | set (bytes : Bytes)
+
+def mut? (s : String) : Option Mut :=
+  if s == "none" then some .none
+  else match s.splitOn ":" with
+    | ["trunc", o] => (parseNat? o).map .trunc
+    | ["flip", i, b] => do
+        let i ← parseNat? i
+        let b ← parseNat? b
+        if b < 8 then pure (.flip i b) else none
+    | ["set", h] => (D12.hex? h).map .set
+    | _ => none
+
+def applyMut (m : Mut) (c : Bytes) : Bytes :=
+  match m with
+  | .none => c
+  | .trunc o => c.take o
+  | .flip i b => (c.zipIdx).map (fun p => if p.2 == i then p.1 ^^^ (UInt8.ofNat (1 <<< b)) else p.1)
+  | .set bytes => bytes
+
+/-- one `pre` entry: `<name>:<hex>` -/
+def preEntry? (pid : Bytes) (s : String) : Option (Name × Bytes) :=
+  match s.splitOn ":" with
+  | [n, c] => do
+    let content ← if c.isEmpty then some [] else D12.hex? c
+    let name ← (if n.startsWith "own." then (parseNat? (n.drop 4).toString).map (fileNameOf pid) else D12.hex? n)
+    pure (name, content)
+  | _ => none
+
+def pre? (pid : Bytes) (s : String) : Option FS :=
+  if s == "-" then some [] else (s.splitOn ",").mapM (preEntry? pid)
+
+/-! rendering -/
+
+def renderRes (canon : String) (r : M Part) : String := D01.render canon r
+
+def renderOutcome (canon : String) (o : Outcome (M Part)) : String :=
+  match o with
+  | .finished r => renderRes canon r
+  | .died .allocFail => "ABORT"
+  | .died _ => "PANIC"
+
+def errName (e : DecErr) : String := ((D12.errClass e).drop 4).toString
+
+def recStr (lg : Option RecLog) : String :=
+  match lg with
+  | none => "died"
+  | some .off => "off"
+  | some .nothing => "none"
+  | some .unreadable => "err:io"
+  | some (.loaded s) => s!"ok:{s.completedNodeIndex}:{s.metadata.totalNodes}:{s.metadata.progressPercent.toNat}"
+  | some (.rejected e) => "err:" ++ errName e
+
+def lastFields (s : State) : String :=
+  s!"idx:{s.completedNodeIndex},pc:{s.partitionCount},em:{D12.hexOf s.execMode},tn:{s.metadata.totalNodes}," ++
+  s!"lnt:{D12.hexOf s.metadata.lastNodeType},pp:{s.metadata.progressPercent.toNat},pid:{D12.hexOf s.pipelineId}"
+
+/-- `own=<0|+> last=<…>` of a directory -/
+def ownStr (pid : Bytes) (fs : FS) : String :=
+  match latest true pid fs with
+  | none => "own=0 last=-"
+  | some name =>
+    match Checkpoint.read fs name with
+    | none => "own=+ last=bad:io"
+    | some bytes =>
+      match load H D12.cfgNow bytes with
+      | .ok s => "own=+ last=" ++ lastFields s
+      | .error e => "own=+ last=bad:" ++ errName e
+
+def otherStr (pid : Bytes) (fs : FS) : String :=
+  D12.namesOut (D12.sortNames ((names fs).filter (fun n => !isOwn pid n)))
+
+/-- `pol=<p>` (configuration present and enabled), `pol=off/<p>` (present, `enabled = false`), `pol=nocfg` (absent) -/
+def ck? (tpol : String) (max : Option Nat) (rec : Bool) : Option (Option (Bool × Config)) :=
+  if tpol == "nocfg" then some none
+  else if tpol.startsWith "off/" then
+    (D12.policy? (tpol.drop 4).toString).map (fun p => some (false, { policy := p, autoRecover := rec, max := max }))
+  else (D12.policy? tpol).map (fun p => some (true, { policy := p, autoRecover := rec, max := max }))
+
+def enabledCfg (ck : Option (Bool × Config)) : Option Config :=
+  match ck with
+  | some (true, cfg) => some cfg
+  | _ => none
+
+/-- `Runner { mode, checkpoint_config }.run_collect` on the planned chain -/
+def runEngine (env : Env) (ck : Option (Bool × Config)) (fs : FS) (chain : List (Node Part)) (par : Option Nat) :
+    Run (M Part) :=
+  runCollect List.flatten env
+    { mode := (match par with | none => .sequential | some n => .parallel n), checkpoint := ck } fs chain
+
+def pidOf (env : Env) (chain : List (Node Part)) (par : Option Nat) : Bytes :=
+  match par with
+  | none => seqPid env chain.length
+  | some n => parPid env chain.length n
+
+def mutateNewest (pid : Bytes) (m : Mut) (fs : FS) : FS :=
+  match latest true pid fs with
+  | none => fs
+  | some name => fs.map (fun f => if f.1 == name then (f.1, applyMut m f.2) else f)
+
+def addForeign (fs : FS) (ns : List Name) : FS := ns.foldl (fun acc n => write acc n []) fs
+
+def handle (toks : List String) : String :=
+  match toks with
+  | tpol :: tmax :: trec :: tfirst :: tmut :: tadd :: tpre :: rest =>
+    match kv? "pol" [tpol], (kv? "max" [tmax]) >>= D12.max?, (kv? "rec" [trec]) >>= D12.bool?,
+          (kv? "first" [tfirst]) >>= first?, (kv? "mut" [tmut]) >>= mut?, (kv? "add" [tadd]) >>= D12.names?,
+          kv? "pre" [tpre], parseReq rest with
+    | some polS, some max, some rec, some first, some mu, some add, some preS, some q =>
+      match ck? polS max rec with
+      | none => "BAD-OP"
+      | some ck =>
+      let par? : Option (Option Nat) :=
+        if q.mode == "seq" then some none
+        else if q.mode.startsWith "par:" then (parseNat? (q.mode.drop 4).toString).map some
+        else none
+      match par? with
+      | none => "BAD-OP"
+      | some par =>
+        let marker : Option Nat := match first with | some (some j) => some j | _ => none
+        let chain := chainOf q.src q.steps marker
+        let pid := pidOf env1 chain par
+        match pre? pid preS with
+        | none => "BAD-OP"
+        | some fs0 =>
+          -- the earlier run
+          let phase1 : Option (String × FS) :=
+            match first with
+            | none => some ("", fs0)
+            | some none =>
+              let r := runEngine env1 ck fs0 chain par
+              some (renderOutcome q.canon r.outcome ++ " " ++ ownStr pid r.fs ++ " || ", r.fs)
+            | some (some _) =>
+              match crashIndex chain with
+              | none => none
+              | some k =>
+                let fs1 := match par, enabledCfg ck with
+                  | none, some cfg1 => crashFs env1 cfg1 fs0 chain k
+                  | _, _ => fs0     -- a panic inside `exec_par` / a plain engine unwinds: nothing is written
+                some ("PANIC " ++ ownStr pid fs1 ++ " || ", fs1)
+          match phase1 with
+          | none => "BAD-OP"
+          | some (prefix1, fs1) =>
+            let fs2 := addForeign (mutateNewest pid mu fs1) add
+            let r := runEngine env2 ck fs2 chain par
+            let recS := match mu with | .flip _ _ => "*" | _ => recStr r.log
+            prefix1 ++ renderOutcome q.canon r.outcome ++ " rec=" ++ recS ++ " " ++ ownStr pid r.fs ++
+              " other=" ++ otherStr pid r.fs
+    | _, _, _, _, _, _, _, _ => "BAD-OP"
+  | _ => "BAD-OP"
+
+def handlers : List (String × (List String → String)) := [("CKPT", handle)]
 
 end IB.D11
